@@ -402,6 +402,10 @@ type wrapCase struct {
 	SetPos int
 	SetX   int // probability 10^(-SetX/100)
 	Solexa bool
+	// Enc2: after the first pass the container's encoding is changed (SetEncoding) to this
+	// Phred-offset encoding and the encode/decode round trip is repeated under it: the container
+	// follows its current encoding, not the one it had when it was first used
+	Enc2 int8
 }
 
 func genWrap(t *rapid.T) wrapCase {
@@ -420,6 +424,7 @@ func genWrap(t *rapid.T) wrapCase {
 	}
 	c.SetPos = rapid.IntRange(0, n-1).Draw(t, "setpos")
 	c.SetX = rapid.IntRange(0, 2500).Draw(t, "setx")
+	c.Enc2 = int8(rapid.SampledFrom(phredEncs).Draw(t, "enc2"))
 	return c
 }
 
@@ -487,6 +492,25 @@ func checkWrap(c wrapCase) *vlib.Failure {
 			}
 			if int(ls.QEncode(pos)) != s+off {
 				return vlib.Failf("wrap-encode-byte", "QSeq.QEncode(%d) = %d want %d", pos, ls.QEncode(pos), s+off)
+			}
+		}
+	}
+	// the same containers under another encoding
+	e2 := alphabet.Encoding(c.Enc2)
+	q.SetEncoding(e2)
+	ls.SetEncoding(e2)
+	off2, lo2, hi2 := phredRange(e2)
+	if q.Encoding() != e2 || ls.Encoding() != e2 {
+		return vlib.Failf("wrap-set-encoding", "Encoding() after SetEncoding(%s) = %s / %s", encNames[e2], encNames[q.Encoding()], encNames[ls.Encoding()])
+	}
+	for i, s := range c.Scores {
+		pos := c.Offset + i
+		if s >= lo2 && s <= hi2 {
+			if got := q.QDecode(q.QEncode(pos)); got != alphabet.Qphred(s) {
+				return vlib.Failf("wrap-roundtrip", "Phred created under %s, after SetEncoding(%s): QDecode(QEncode(%d)) = %d want %d", encNames[e], encNames[e2], pos, got, s)
+			}
+			if int(q.QEncode(pos)) != s+off2 || int(ls.QEncode(pos)) != s+off2 {
+				return vlib.Failf("wrap-encode-byte", "after SetEncoding(%s): QEncode(%d) = %d / %d want %d", encNames[e2], pos, q.QEncode(pos), ls.QEncode(pos), s+off2)
 			}
 		}
 	}
